@@ -358,6 +358,13 @@ impl LexiconReader {
             return rec.ctx.err(BuildFailure::EmptySurface);
         }
 
+        if surface.contains('\0') {
+            // the surface is a key of the index trie, whose builder does not support NUL bytes
+            return rec
+                .ctx
+                .err(BuildFailure::InvalidCharLiteral("0 in surface".to_owned()));
+        }
+
         self.ctx = rec.ctx;
 
         let entry = RawLexiconEntry {
